@@ -25,7 +25,7 @@ from dataclasses import dataclass
 from typing import Any, Dict, FrozenSet, Iterable, List, Optional, Tuple
 
 from .flow import Client, Flow, attr_chain, calls_in, ExcHierarchy
-from .srcmodel import (AnalysisError, BoundMethod, ClassInfo, ClassRef, FuncInfo, NotConst, Repo,
+from .srcmodel import (FuncRef, AnalysisError, BoundMethod, ClassInfo, ClassRef, FuncInfo, NotConst, Repo,
                        body_without_docstring, norm)
 
 Kind = Tuple[str, Optional[int]]
@@ -121,45 +121,47 @@ class FsmModel:
 
     # ------------------------------------------------------------------ table
     def _load_table(self):
-        node = None
-        where = None
-        for f in list(self.sm.methods.values()):
-            for st in ast.walk(f.node):
-                if isinstance(st, (ast.Assign, ast.AnnAssign)):
-                    tgts = st.targets if isinstance(st, ast.Assign) else [st.target]
-                    for t in tgts:
-                        if attr_chain(t) == ('self', 'transition_table') and isinstance(st.value, ast.Dict):
-                            node, where = st.value, f
-        if node is None and 'transition_table' in self.sm.attrs and isinstance(self.sm.attrs['transition_table'], ast.Dict):
-            node = self.sm.attrs['transition_table']
-        if node is None:
+        """The transition table an instance holds after construction, by constant propagation through the constructor
+        (peval.py): a dict literal, a table built from rows, ``dict.update`` of generated rows -- whatever the
+        initialiser does with constants."""
+        from .peval import CannotEval, PEval, Raised, SelfObj, Tagged, UNKNOWN, _Bound
+        pe = PEval(self.repo)
+        try:
+            obj = pe.constructed(self.sm)
+            table = obj.attrs.get('transition_table')
+            if table is None and self.sm.find_attr('transition_table') is not None:
+                hit = self.sm.find_attr('transition_table')
+                table = pe.class_attr(hit[0], 'transition_table')
+        except (CannotEval, Raised) as exc:
+            raise AnalysisError('StateMachine.transition_table cannot be determined from its initialiser: %s' % (exc,))
+        if not isinstance(table, dict) or not table:
             raise AnalysisError('StateMachine.transition_table dict literal not found')
-        self.table_node = node
-        self.table_where = where
-        for k, v in zip(node.keys, node.values):
-            if k is None:
-                raise AnalysisError('transition_table uses dict unpacking')
-            try:
-                key = self.repo.fold(k, self.mod, self.sm)
-            except NotConst:
-                raise AnalysisError('transition_table key %s is not constant' % norm(k))
-            if not (isinstance(key, tuple) and len(key) == 2):
-                raise AnalysisError('transition_table key %s is not a pair' % norm(k))
-            # keys must be written as (Events.X, States.Y): recover the names from values
-            ev = self.event_by_val.get(key[0])
-            st = self.state_by_val.get(key[1])
-            # guard against swapped (state, event) order: check by attribute class names
-            if isinstance(k, ast.Tuple) and len(k.elts) == 2:
-                a, b = k.elts
-                ca, cb = attr_chain(a), attr_chain(b)
-                if ca and cb and (ca[-2:-1] == ('States',) or cb[-2:-1] == ('Events',)):
-                    raise AnalysisError('transition_table key %s is not (event, state)' % norm(k))
+        self.table_where = self.sm.find_method('__init__')
+        for key, v in table.items():
+            if not (isinstance(key, tuple) and len(key) == 2 and all(isinstance(x, int) and not isinstance(x, bool) for x in key)):
+                raise AnalysisError('transition_table key %r is not a pair of constants' % (key,))
+            # keys must be (event, state): checked by the enumeration the constants were read from where that is known
+            for x, want in ((key[0], 'Events'), (key[1], 'States')):
+                if isinstance(x, Tagged) and x.owner in ('Events', 'States') and x.owner != want:
+                    raise AnalysisError('transition_table key (%s.%s, ...) is not (event, state)' % (x.owner, x.member))
+            ev = self.event_by_val.get(int(key[0]))
+            st = self.state_by_val.get(int(key[1]))
             if ev is None or st is None:
-                raise AnalysisError('transition_table key %s outside the enumerations' % norm(k))
-            meth = self._action_name(v)
-            if (ev, st) in self.table:
-                self.table_dupes.append((ev, st))
-            self.table[(ev, st)] = meth
+                raise AnalysisError('transition_table key %r outside the enumerations' % (key,))
+            if isinstance(v, _Bound):
+                name = v.fi.name
+            elif isinstance(v, FuncRef) and v.module == 'fsm' and v.qualname.startswith('StateMachine.'):
+                name = v.qualname.split('.', 1)[1]
+            else:
+                raise AnalysisError('transition_table value for (%s, %s) is not a method of the state machine' % (ev, st))
+            if not self.sm.find_method(name):
+                raise AnalysisError('transition_table refers to unknown method %s' % name)
+            self.table[(ev, st)] = name
+        for k in pe.dupes:
+            if isinstance(k, tuple) and len(k) == 2:
+                ev, st = self.event_by_val.get(int(k[0])), self.state_by_val.get(int(k[1]))
+                if ev and st:
+                    self.table_dupes.append((ev, st))
 
     def _action_name(self, v: ast.expr) -> str:
         ch = attr_chain(v)
